@@ -8,6 +8,7 @@ import CifModel.Lemmas.StoreRefineR
 import CifModel.Lemmas.StoreRefineC
 import CifModel.Lemmas.StoreTotalS
 import CifModel.Lemmas.StoreWOk
+import CifModel.Lemmas.StoreRefineW
 import CifModel.Lemmas.StoreCodes
 import CifModel.Lemmas.StoreTree
 /-
@@ -1118,6 +1119,52 @@ theorem C04_rows_below (w : World) (h : WOk w) (c : Nat) (s : Store) (hs : w.cif
     needs to keep PacketsTotal) with the item names of that loop and a `scalar` flag true to the stored category -/
 theorem C04_iterator_tied (w : World) (h : WOk w) (i : Nat) (e : ITE) (s : Store) (hl : w.liveI i = some (e, s)) :
     IterOk e.it s.db := h.iters.of_liveI hl
+
+-- ---- the loop-level theorems with their hypotheses discharged by WOk and the contract ------------------------------------------------
+
+/-- cif_loop_add_packet in a world satisfying WOk, the op in contract: code and effect are the documented model's, and nothing about
+    the history is assumed — RowsBelow, the scalar count and the handle's loop come from `WOk` / `inContract`.  (Remaining
+    hypothesis: item names are stored normalised, `ItemsNormOK norm` — `norm` is C09's and the names come from the caller.) -/
+theorem C04_add_packet_in_contract (norm : Str → Str) (w : World) (l : Nat) (p : List (Str × V)) (h : WOk w)
+    (hin : inContract w (.addPkt l p) = true) (e : LHE) (s : Store) (hl : w.liveL l = some (e, s)) (hn : ItemsNormOK norm s.db) :
+    ∃ x ∈ s.db.loops, x.cid = e.h.cid ∧ x.loopNum = e.h.loopNum ∧
+      (addPacket s e.h p).2 = ((absLoop s.db x).specAddPacket norm p).map (fun _ => ()) ∧
+      (match (addPacket s e.h p).2 with
+       | .ok _ => (∀ cid', absLoops (addPacket s e.h p).1.db cid' = (s.db.loops.filter (fun y => y.cid == cid')).map (fun y =>
+                    if y.cid == e.h.cid && y.loopNum == e.h.loopNum then
+                      { absLoop s.db y with packets := (absLoop s.db y).packets ++ [packetFor s.db e.h.cid e.h.loopNum p] }
+                    else absLoop s.db y)) ∧
+                  (addPacket s e.h p).1.db.frames = s.db.frames ∧ (addPacket s e.h p).1.db.blocks = s.db.blocks
+       | .error _ => (addPacket s e.h p).1.db = s.db) := by
+  have hin' : (okL w l && keysDistinct p) = true := hin
+  simp only [Bool.and_eq_true] at hin'
+  exact addPacket_good norm s e.h p (h.good.live (liveL_liveC hl)).db (okL_busy hin'.1 hl).2 hin'.2 hn
+
+/-- cif_loop_set_category in a world satisfying WOk, the op in contract: the documented model's code -/
+theorem C04_set_category_in_contract (w : World) (l : Nat) (cat : Option Str) (h : WOk w)
+    (hin : inContract w (.setCat l cat) = true) (e : LHE) (s : Store) (hl : w.liveL l = some (e, s)) :
+    ∃ x ∈ s.db.loops, x.cid = e.h.cid ∧ x.loopNum = e.h.loopNum ∧
+      (Store.setCategory s e.h cat).2.2 = ((absLoop s.db x).specSetCategory cat).map (fun _ => ()) :=
+  setCategory_good s e.h cat (h.good.live (liveL_liveC hl)).db (okL_busy hin hl).2
+
+/-- in every CIF of a world satisfying WOk, cif_container_get_value sees exactly the item's column of the documented model
+    (`hcomplete` of `C04_refines_get_value` is PacketsTotal), and removing an item that is not its loop's last keeps every packet
+    (`hcomplete` of `C04_refines_remove_item`) -/
+theorem C04_get_value_in_wok (w : World) (h : WOk w) (c : Nat) (s : Store) (hs : w.cifs.getD c none = some s)
+    (x : LoopRow) (hx : x ∈ s.db.loops) (i : ItemRow) (hi : i ∈ s.db.loopItems x.cid x.loopNum) :
+    (s.db.valuesOf x.cid i.name).map (·.val) = absColumn s.db x i :=
+  getValue_good s.db (h.good c s hs).db x hx i hi
+
+theorem C04_remove_item_in_wok (w : World) (h : WOk w) (c : Nat) (s : Store) (hs : w.cifs.getD c none = some s)
+    (x : LoopRow) (i j0 : ItemRow) (hx : x ∈ s.db.loops) (hi : i ∈ s.db.loopItems x.cid x.loopNum)
+    (hj0 : j0 ∈ s.db.loopItems x.cid x.loopNum) (hne0 : j0.name ≠ i.name) :
+    let d' := s.db.removeItem x.cid i.name
+    let keep := (s.db.loopItems x.cid x.loopNum).filter (fun j => !(j.name == i.name))
+    absLoop d' x = { category := x.category, names := keep.map (·.nameOrig),
+                     packets := (s.db.loopRows x.cid x.loopNum).map (fun r => keep.map (fun j => cell s.db x.cid j r)) } ∧
+    (∀ y ∈ s.db.loops, ¬(y.cid = x.cid ∧ y.loopNum = x.loopNum) → absLoop d' y = absLoop s.db y) ∧
+    d'.loops = s.db.loops ∧ d'.frames = s.db.frames ∧ d'.blocks = s.db.blocks :=
+  removeItem_good s.db (h.good c s hs).db x i j0 hx hi hj0 hne0
 
 -- ---- failure-code agreement with Spec/DataModel (loop level) ---------------------------------------------------------------------
 
